@@ -39,13 +39,42 @@ ALPHAS = [0.0, 0.25, 0.5, 1.0, -0.5, 1.5]
 KPTS = ["G", "X", "gen", "gen2"]
 TOL = 1e-10
 
+# R-sets of "layered" models (hoppings reach further along one axis): the box enclosing the union of the two lists is
+# longer along a LATER axis than along an earlier one (all zoo sets above except "lopsided" have n0 >= n1 >= n2)
+_SHELL1 = [(0, 0, 0), (1, 0, 0), (-1, 0, 0), (0, 1, 0), (0, -1, 0), (0, 0, 1), (0, 0, -1)]
+_TALLZ = _SHELL1 + [(0, 0, 2), (0, 0, -2), (0, 0, 3), (0, 0, -3), (1, 0, 3), (-1, 0, -3), (0, 1, -2), (0, -1, 2)]
+LOCAL_RSETS = {
+    "tallz": _TALLZ,                                     # box 3 x 3 x 7
+    "tally": [(x, z, y) for (x, y, z) in _TALLZ],        # box 3 x 7 x 3
+    "zonly3": [(0, 0, 0), (0, 0, 3), (0, 0, -3)],        # box 1 x 1 x 7 : R_z = +-3 only
+}
 R_REL = {  # label -> (rs0, rs1, order of list 1)
     "equal": ("shell1", "shell1", "id"),
     "permuted": ("shell1", "shell1", "rev"),
     "0_in_1": ("shell1", "shell2", "id"),
     "1_in_0": ("shell2", "shell1", "id"),
     "overlap": ("shell1", "lopsided", "id"),
+    # the same five relations with a union box that grows along later axes (3x3x7, 3x7x7, 5x3x7)
+    "equal_tall": ("tallz", "tallz", "id"),
+    "permuted_tall": ("tallz", "tallz", "rev"),
+    "0_in_1_tall": ("shell1", "tallz", "id"),
+    "1_in_0_tall": ("tallz", "zonly3", "id"),
+    "overlap_zonly3": ("shell1", "zonly3", "id"),        # only R=0 in common
+    "overlap_tall": ("tally", "tallz", "id"),
+    "overlap_lopsided_tall": ("lopsided", "tallz", "id"),
 }
+R_REL_BASE = ("equal", "permuted", "0_in_1", "1_in_0", "overlap")
+R_REL_TALL = tuple(r for r in R_REL if r not in R_REL_BASE)
+
+
+def _rs(name):
+    """zoo name (kept as a name: the generic entries of the existing cases do not change) or a local explicit list"""
+    return LOCAL_RSETS.get(name, name)
+
+
+def union_box(s0, s1):
+    iR = np.vstack([np.array(s0.rvec.iRvec), np.array(s1.rvec.iRvec)])
+    return [int(x) for x in (iR.max(axis=0) - iR.min(axis=0) + 1)]
 MAT_REL = {  # label -> (matrices0, matrices1)
     "equal": (("Ham", "AA"), ("Ham", "AA")),
     "different": (("Ham", "AA", "SS"), ("Ham", "AA", "BB")),
@@ -63,10 +92,17 @@ def cases(tier, seed):
     for nw in nws:
         for lat in lats:
             for rrel in R_REL:
+                tall = rrel in R_REL_TALL
                 for mrel in MAT_REL:
                     if tier == "quick" and mrel == "rich" and (lat == "hex" or nw == 1):
                         continue
+                    if tier == "quick" and tall:
+                        # reduced product for the anisotropic-box relations: the R-list merge does not look at the matrices
+                        if mrel not in ("equal", "different") or (nw, lat) not in ((2, "tric"), (1, "hex")):
+                            continue
                     for crel in cens:
+                        if tier == "quick" and tall and (mrel, crel) == ("different", "same"):
+                            continue
                         out.append({"kind": "R", "nw": nw, "lat": lat, "rrel": rrel, "mrel": mrel, "crel": crel})
     # spin-orbit pairs
     for nw in ((1,) if tier == "quick" else (1, 2)):
@@ -79,6 +115,14 @@ def cases(tier, seed):
                                 continue
                             out.append({"kind": "soc", "nw": nw, "lat": lat, "spins": spins, "rrel": rrel,
                                         "crel": crel, "aa": aa})
+    # spin-orbit pairs with anisotropic boxes: the spin channels live on the "tall" lists and the spin-orbit term on the
+    # Wigner-Seitz set of a 2x2x4 mesh (R_z up to +-2, R_x, R_y up to +-1), a 2x2x2 mesh for the other system
+    for nw in ((1,) if tier == "quick" else (1, 2)):
+        for spins in (("22", "12") if tier == "quick" else ("11", "22", "12", "21")):
+            for rrel in (("overlap_tall",) if tier == "quick" else ("0_in_1_tall", "1_in_0_tall", "overlap_tall")):
+                for crel in (("different",) if tier == "quick" else ("same", "different")):
+                    out.append({"kind": "soc", "nw": nw, "lat": "tric", "spins": spins, "rrel": rrel,
+                                "crel": crel, "aa": False, "mp": [[2, 2, 4], [2, 2, 2]]})
     return out
 
 
@@ -89,8 +133,8 @@ def build_R(case, seed):
     rs0, rs1, order = R_REL[case["rrel"]]
     m0, m1 = MAT_REL[case["mrel"]]
     c0, c1 = CEN_REL[case["crel"]]
-    s0 = zoo.make_system(case["nw"], case["lat"], rs0, c0, seed=seed, matrices=m0, tag="c26a")
-    s1 = zoo.make_system(case["nw"], case["lat"], rs1, c1, seed=seed, matrices=m1, tag="c26b")
+    s0 = zoo.make_system(case["nw"], case["lat"], _rs(rs0), c0, seed=seed, matrices=m0, tag="c26a")
+    s1 = zoo.make_system(case["nw"], case["lat"], _rs(rs1), c1, seed=seed, matrices=m1, tag="c26b")
     if order != "id":
         s1 = ss.reordered_copy(s1, ss.order_of(order, s1.rvec.nRvec))
     return s0, s1
@@ -103,14 +147,15 @@ def build_soc(case, seed):
     mats = ("Ham", "AA") if case["aa"] else ("Ham",)
     out = []
     for i, (rs, cen, nsp) in enumerate(((rs0, c0, case["spins"][0]), (rs1, c1, case["spins"][1]))):
-        up = zoo.make_system(case["nw"], case["lat"], rs, cen, seed=seed, matrices=mats, tag=f"c26up{i}")
+        up = zoo.make_system(case["nw"], case["lat"], _rs(rs), cen, seed=seed, matrices=mats, tag=f"c26up{i}")
         dn = None
         if nsp == "2":
             # the spin-down list differs from the spin-up one (other shell, reversed order)
-            rsd = "shell2" if rs == "shell1" else "shell1"
-            dn = zoo.make_system(case["nw"], case["lat"], rsd, cen, seed=seed, matrices=mats, tag=f"c26dn{i}")
+            rsd = {"shell1": "shell2", "tallz": "tally", "tally": "tallz"}.get(rs, "shell1")
+            dn = zoo.make_system(case["nw"], case["lat"], _rs(rsd), cen, seed=seed, matrices=mats, tag=f"c26dn{i}")
             dn = ss.reordered_copy(dn, ss.order_of("rev", dn.rvec.nRvec))
-        s = ss.make_soc_system(up, dn, with_soc=True, theta=0.3 + 0.9 * i, phi=0.5 + 1.1 * i, alpha_soc=0.7 + 0.2 * i,
+        mp = tuple(case["mp"][i]) if "mp" in case else (2, 2, 2)
+        s = ss.make_soc_system(up, dn, with_soc=True, mp_grid=mp, theta=0.3 + 0.9 * i, phi=0.5 + 1.1 * i, alpha_soc=0.7 + 0.2 * i,
                                overlap="generic", seed=seed, tag=f"c26soc{i}")
         out.append(s)
     return out[0], out[1]
@@ -310,6 +355,10 @@ def run_case(case, seed):
         lists_differ = True
         dropped = set(s0._XX_R) != set(s1._XX_R)
     bad = check_pair(case, s0, s1, itp, subs)
+    boxes = {label: union_box(e0, e1) for label, get, e0, e1 in subs}
+    # a box that is longer along a later axis than along an earlier one (any flattening of R into one index must use
+    # the right strides there)
+    box_growing = sorted(label for label, b in boxes.items() if b[1] > b[0] or b[2] > b[1])
     cen_differ = float(np.abs(s0.wannier_centers_cart - s1.wannier_centers_cart).max()) > 1e-6
     nt = []
     if lists_differ:
@@ -318,15 +367,21 @@ def run_case(case, seed):
         nt.append((case["kind"], "centres_differ", case["crel"], case["lat"]))
     if dropped:
         nt.append((case["kind"], "matrix_dropped", case.get("mrel", case.get("spins"))))
+    if box_growing and lists_differ:
+        nt.append((case["kind"], "union_box_grows_along_later_axis", case["rrel"]))
     if bad is not None:
         bad["nontrivial"] = bool(nt)
         return bad
     return {"ok": True, "nontrivial": bool(nt),
             "obs": {"alphas": len(ALPHAS), "centres_differ": cen_differ, "lists_differ": lists_differ,
-                    "matrix_dropped": dropped}}
+                    "matrix_dropped": dropped, "union_box": boxes, "box_grows_along_later_axis": box_growing}}
 
 
 def finish(tier, cases, results):
     return {"axes": {"alphas": ALPHAS, "k_points": KPTS, "R_relations": list(R_REL), "matrix_relations": list(MAT_REL),
                      "centres": list(CEN_REL)},
-            "pairs_with_different_centres": int(sum(1 for r in results if (r.get("obs") or {}).get("centres_differ")))}
+            "R_sets": {"zoo": ["shell1", "shell2", "lopsided"], "local": {k: len(v) for k, v in LOCAL_RSETS.items()}},
+            "pairs_with_different_centres": int(sum(1 for r in results if (r.get("obs") or {}).get("centres_differ"))),
+            "pairs_with_union_box_growing_along_a_later_axis":
+                int(sum(1 for r in results if (r.get("obs") or {}).get("box_grows_along_later_axis"))),
+            "distinct_union_boxes": sorted({tuple(b) for r in results for b in ((r.get("obs") or {}).get("union_box") or {}).values()})}
